@@ -2,7 +2,7 @@
 From Coq Require Import ZArith QArith List Bool Lia.
 From Knut Require Import Model.Str Model.Dec Model.Date Model.Account Model.Ledger Model.Journal
      Model.Table Model.Report Model.JPrinter Model.ImpCommonA Model.ImpCommonB
-     Model.Imp.Revolut2 Model.Imp.Revolut Model.Imp.Wise Model.Imp.Swissquote
+     Model.Imp.Revolut2 Model.Imp.Revolut Model.Imp.Wise Model.Imp.Swissquote Model.Imp.Interactivebrokers
      Spec.ImpSpecA Spec.ImpSpecB Proofs.DecProofs Proofs.DecValue Proofs.PairProofs Proofs.StrProofs
      Proofs.ImpProofsA.
 Import ListNotations.
@@ -696,3 +696,130 @@ Proof.
   - apply sqs_entries_books; assumption.
   - rewrite !map_map. apply map_ext. reflexivity.
 Qed.
+
+(* ---------------------------------------------------------------- interactivebrokers (row lemmas) *)
+
+(* evaluates the comparisons of the section name s with the section constants of ib_line *)
+Ltac ev_sec sec :=
+  repeat match goal with
+  | |- context [str_eqb sec ?b] => let v := eval vm_compute in (str_eqb sec b) in change (str_eqb sec b) with v
+  end.
+
+Lemma s_data_refl : str_eqb s_data s_data = true.
+Proof. reflexivity. Qed.
+
+Section IBRows.
+  Variables acct dividend interest tax fee trading : account.
+  Variable st : ib_state.
+  Hypothesis Htbd : acct <> tbd_account.
+  Hypothesis Hdiv : acct <> dividend.
+  Hypothesis Hint : acct <> interest.
+  Hypothesis Htax : acct <> tax.
+  Hypothesis Hfee : acct <> fee.
+  Hypothesis Htr : acct <> trading.
+
+  Lemma one_in_books other cur q d desc tg : acct <> other ->
+    books_b acct (mkEffect d [(cur, q)]) [mkLeg other acct cur q] tg
+            (mkTxn d desc (legs_postings [mkLeg other acct cur q]) tg).
+  Proof.
+    intros H. apply books_b_intro; [reflexivity|]. intros c. cbn [re_changes].
+    apply (one_in_effect acct other cur q c H).
+  Qed.
+
+  (* Deposits & Withdrawals,Data,<cur>,<date>,<description>,<amount> *)
+  Lemma ib_deposit_row cur day desc amt d q :
+    str_eqb cur s_total = false -> is_empty day = false -> valid_name cur = true ->
+    parse_iso day = Some d -> ibs_num2 amt = Some q ->
+    exists t, ib_line acct dividend interest tax fee trading st [s_deposits; s_data; cur; day; desc; amt] = MOk (st, [DTxn t]) /\
+      books_b acct (mkEffect d [(cur, q)]) [mkLeg tbd_account acct cur q] None t.
+  Proof.
+    intros H1 H2 H3 H4 H5. unfold ibs_num2, ibs_num in H5.
+    unfold ib_line. ev_sec s_deposits. cbn [conds fld nth_error]. unfold eqs. rewrite s_data_refl, H1, H2. cbn [negb mbind].
+    unfold fld_p, fld. cbn [nth_error]. unfold ib_com. rewrite H3. cbn [mbind]. unfold ib_date. rewrite H4. cbn [mbind].
+    unfold ib_rounded, ib_decimal. destruct (new_from_string (remove_byte 44%Z amt)); [|discriminate H5].
+    injection H5 as H5. rewrite H5. cbn [ib_dec mbind]. eexists. split; [reflexivity|].
+    apply one_in_books. assumption.
+  Qed.
+
+  (* Dividends,Data,<cur>,<date>,<description>,<amount> *)
+  Lemma ib_dividend_row cur day desc amt d q :
+    is_prefix s_total cur = false -> valid_name cur = true -> parse_iso day = Some d -> ibs_num amt = Some q ->
+    ibs_security desc <> [] ->
+    exists t, ib_line acct dividend interest tax fee trading st [s_dividends; s_data; cur; day; desc; amt] = MOk (st, [DTxn t]) /\
+      books_b acct (mkEffect d [(cur, q)]) [mkLeg dividend acct cur q] (Some [ibs_security desc]) t /\
+      t_desc t = build_desc desc.
+  Proof.
+    intros H1 H3 H4 H5 H6. unfold ibs_num in H5.
+    unfold ib_line. ev_sec s_dividends. cbn [conds fld nth_error]. unfold eqs. rewrite s_data_refl, H1. cbn [negb mbind andb].
+    unfold len_is. cbn [length Nat.eqb]. unfold fld_p, fld. cbn [nth_error]. unfold ib_com. rewrite H3. cbn [mbind].
+    unfold ib_date. rewrite H4. cbn [mbind]. unfold ib_decimal. rewrite H5. cbn [ib_dec mbind].
+    unfold ib_symbol. fold (ibs_security desc). destruct (ibs_security desc) eqn:E; [contradiction|]. cbn [mbind].
+    eexists. split; [reflexivity|]. split; [|reflexivity]. apply one_in_books. assumption.
+  Qed.
+
+  (* Interest,Data,<cur>,<date>,<description>,<amount> *)
+  Lemma ib_interest_row cur day desc amt d q :
+    is_prefix s_total cur = false -> valid_name cur = true -> parse_iso day = Some d -> ibs_num amt = Some q ->
+    exists t, ib_line acct dividend interest tax fee trading st [s_interest; s_data; cur; day; desc; amt] = MOk (st, [DTxn t]) /\
+      books_b acct (mkEffect d [(cur, q)]) [mkLeg interest acct cur q] (Some [cur]) t /\
+      t_desc t = build_desc desc.
+  Proof.
+    intros H1 H3 H4 H5. unfold ibs_num in H5.
+    unfold ib_line. ev_sec s_interest. cbn [conds fld nth_error]. unfold eqs. rewrite s_data_refl, H1. cbn [negb mbind andb].
+    unfold len_is. cbn [length Nat.eqb]. unfold fld_p, fld. cbn [nth_error]. unfold ib_com. rewrite H3. cbn [mbind].
+    unfold ib_date. rewrite H4. cbn [mbind]. unfold ib_decimal. rewrite H5. cbn [ib_dec mbind].
+    eexists. split; [reflexivity|]. split; [|reflexivity]. apply one_in_books. assumption.
+  Qed.
+
+  (* Withholding Tax,Data,<cur>,<date>,<description>,<amount>,<code> *)
+  Lemma ib_withholding_row cur day desc amt code d q :
+    is_prefix s_total cur = false -> valid_name cur = true -> parse_iso day = Some d -> ibs_num amt = Some q ->
+    ibs_security desc <> [] ->
+    exists t, ib_line acct dividend interest tax fee trading st [s_withholding; s_data; cur; day; desc; amt; code] = MOk (st, [DTxn t]) /\
+      books_b acct (mkEffect d [(cur, q)]) [mkLeg tax acct cur q] (Some [ibs_security desc]) t /\
+      t_desc t = build_desc desc.
+  Proof.
+    intros H1 H3 H4 H5 H6. unfold ibs_num in H5.
+    unfold ib_line. ev_sec s_withholding. cbn [conds fld nth_error]. unfold eqs. rewrite s_data_refl, H1. cbn [negb mbind].
+    unfold fld_p, fld. cbn [nth_error]. unfold ib_com. rewrite H3. cbn [mbind].
+    unfold ib_date. rewrite H4. cbn [mbind]. unfold ib_decimal. rewrite H5. cbn [ib_dec mbind].
+    unfold ib_symbol. fold (ibs_security desc). destruct (ibs_security desc) eqn:E; [contradiction|]. cbn [mbind].
+    eexists. split; [reflexivity|]. split; [|reflexivity]. apply one_in_books. assumption.
+  Qed.
+
+  (* Trades,Data,Order,Stocks,<cur>,<symbol>,<date, time>,<quantity>,<price>,_,<proceeds>,<commission>,... (17 fields):
+     the holding changes by the quantity ROUNDED to two places, the cash by the ROUNDED proceeds
+     plus the (signed, unrounded) commission *)
+  Lemma ib_stock_row cur sym stamp qs ps x9 prs fs x12 x13 x14 x15 x16 d qty price proceeds feeq :
+    valid_name cur = true -> valid_name sym = true ->
+    Nat.leb 10 (length stamp) = true -> parse_iso (firstn 10 stamp) = Some d ->
+    ibs_num2 qs = Some qty -> ibs_num ps = Some price -> ibs_num2 prs = Some proceeds -> new_from_string fs = Some feeq ->
+    exists t, ib_line acct dividend interest tax fee trading st
+                [s_trades; s_data; s_order; s_stocks; cur; sym; stamp; qs; ps; x9; prs; fs; x12; x13; x14; x15; x16] = MOk (st, [DTxn t]) /\
+      books_b acct (mkEffect d [(sym, qty); (cur, proceeds); (cur, feeq)])
+              [mkLeg trading acct sym qty; mkLeg trading acct cur proceeds; mkLeg fee acct cur feeq] (Some [sym; cur]) t.
+  Proof.
+    intros H1 H2 H3 H4 H5 H6 H7 H8. unfold ibs_num2, ibs_num in *.
+    unfold ib_line. ev_sec s_trades. cbn [conds fld nth_error]. unfold eqs.
+    change (str_eqb s_data s_data) with true. change (str_eqb s_order s_order) with true.
+    change (str_eqb s_stocks s_forex) with false. change (str_eqb s_stocks s_stocks) with true. cbn [mbind].
+    unfold fld_p, fld. cbn [nth_error]. unfold ib_com. rewrite H1, H2. cbn [mbind].
+    unfold ib_date10, prefix10, ib_date. rewrite H3, H4. cbn [mbind].
+    unfold ib_rounded, ib_decimal.
+    destruct (new_from_string (remove_byte 44%Z qs)); [|discriminate H5]. injection H5 as H5. rewrite H5.
+    rewrite H6.
+    destruct (new_from_string (remove_byte 44%Z prs)); [|discriminate H7]. injection H7 as H7. rewrite H7.
+    rewrite H8. cbn [ib_dec mbind]. eexists. split; [reflexivity|].
+    apply books_b_intro; [reflexivity|]. intros c. cbn [re_changes legs_effect expected fold_right fst snd].
+    unfold leg_effect. cbn [l_credit l_debit l_com l_qty].
+    rewrite !(ind_other_acc trading acct) by congruence. rewrite (ind_other_acc fee acct) by congruence.
+    unfold ind. acc_cases. destruct (str_eq_dec sym c); destruct (str_eq_dec cur c); ring.
+  Qed.
+End IBRows.
+
+(* the statement loop concatenates what the records yield, threading the state *)
+Lemma ib_rows_cons acct dividend interest tax fee trading st r rest st' ds :
+  ib_line acct dividend interest tax fee trading st r = MOk (st', ds) ->
+  ib_rows acct dividend interest tax fee trading st (CRec r :: rest) =
+  mbind (ib_rows acct dividend interest tax fee trading st' rest) (fun ds' => MOk (ds ++ ds')).
+Proof. intros H. cbn [ib_rows]. rewrite H. reflexivity. Qed.
